@@ -228,6 +228,21 @@ def describe(cuqi, o):
     return kind_of(cuqi, o) + ":" + (",".join(str(n) for n in names) if names else ".")
 
 
+def refusal_reason(rem, npos, kwnames):
+    """The four conditions of `logd_refuses_iff` (Props/C01_full.lean) for parameter names `rem`:
+    returns the first that holds or None for a well-formed call."""
+    kw = list(kwnames)
+    if npos > len(rem):
+        return "toomany"
+    if any(n in kw for n in rem[:npos]):
+        return "double"
+    if any(n not in kw and n not in rem[:npos] for n in rem):
+        return "missing"
+    if any(k not in rem for k in kw):
+        return "unknown"
+    return None
+
+
 # ----------------------------------------------------------------------------- one program
 class Program:
     def __init__(self, cuqi, rng, thorough, idx):
@@ -331,6 +346,12 @@ class Program:
             rec = "err:" + type(e).__name__
             ok = False
         self._record(token, rec, {"op": "cond", "kind": kb, "mode": mode, "what": what})
+        if what == "double" and ok:
+            rem = self.remaining()
+            if any(k in rem[:len(pos)] for k, _ in kw):      # a keyword names a parameter occupied by a positional value
+                self.fails.append((f"cond:{kb}:malformed:double:accepted", {**self.desc, "call": token, "record": len(self.impl) - 1,
+                                    "fixed": dict(self.fixed)}, "an error", rec,
+                                   "a conditioning call with a doubly specified variable (position and keyword) returns an object"))
         if what == "valid":
             if ok:
                 for n, i in list(pos) + list(kw):
@@ -351,6 +372,9 @@ class Program:
         else:
             pargs = [self._arg(self.byname[n], i) if n in self.byname else 1.0 for n, i in pos]
         kwargs = {k: (self._arg(self.byname[k], i) if k in self.byname else 1.0) for k, i in kw}
+        fv = getattr(self, "_foreign_value", None)
+        if fv is not None and fv[0] in kwargs:
+            kwargs[fv[0]] = self._arg(fv[1], fv[2])
         token = "E;" + enc_pos(pargs) + ";" + enc_kw([(k, kwargs[k]) for k, _ in kw])
         try:
             with quiet():
@@ -369,7 +393,10 @@ class Program:
                 self.fails.append((key, d, want, rec if isinstance(rec, str) else rec[1],
                                    "log-density of the conditioned object is not the joint log-density at the complete assignment"))
         else:
-            if isinstance(rec, tuple):
+            sound = True
+            if raw_pos is None:   # (stacked calls are classified by their length instead)
+                sound = refusal_reason(self.remaining(), len(pargs), [k for k, _ in kw]) is not None
+            if isinstance(rec, tuple) and sound:
                 key = f"logd:{kb}:malformed:{what}:accepted"
                 self.fails.append((key, d, "an error", rec[1], f"evaluation with a {what} variable returns a number"))
 
@@ -448,6 +475,39 @@ class Program:
                 self.call_logd([(n, assign[n]) for n in rem[:m]], ks, "mixed", "double")
         elif malformed == "toomany":
             self.call_logd([(n, assign[n]) for n in rem] + [(None, 0)], [], "positional", "unknown")
+        elif malformed == "renamed":
+            # one free variable is passed under a foreign name (unknown, or already fixed): missing + unknown;
+            # with a single free variable this is a ONE-keyword call
+            if not rem:
+                return
+            foreign = rng.choice(sorted(self.fixed)) if (self.fixed and rng.random() < 0.6) else UNKNOWN
+            victim = rng.choice(rem)
+            m = rng.randint(0, len(rem) - 1) if kb not in ("Posterior", "Distribution", "Likelihood") else 0
+            if victim in rem[:m]:
+                m = rem.index(victim)
+            ks = [((foreign, assign[n]) if n == victim else (n, assign[n])) for n in rem[m:]]
+            rng.shuffle(ks)
+            # the foreign key carries the *victim's* value (so a code path that ignores names gets a usable value)
+            self._foreign_value = (foreign, self.byname[victim], assign[victim])
+            self.call_logd([(n, assign[n]) for n in rem[:m]], ks, "mixed" if m else "keyword", "renamed")
+            self._foreign_value = None
+        elif malformed == "double-shift":
+            # a keyword names a parameter that a positional value occupies, another parameter is missing, so that
+            # the number of values equals the number of parameters
+            if len(rem) < 2:
+                return
+            m = rng.randint(1, len(rem) - 1)
+            dup = rng.choice(rem[:m])
+            rest = rem[m:]
+            drop = rng.choice(rest)
+            ks = [(dup, assign[dup])] + [(n, assign[n]) for n in rest if n != drop]
+            rng.shuffle(ks)
+            self.call_logd([(n, assign[n]) for n in rem[:m]], ks, "mixed", "double")
+        elif malformed == "fixed-only":
+            # only already fixed / unknown names, every free variable missing
+            pool = sorted(self.fixed) + [UNKNOWN]
+            ks = [(k, 0) for k in rng.sample(pool, rng.randint(1, min(2, len(pool))))]
+            self.call_logd([], ks, "keyword", "missing")
 
     def gen_cond(self):
         rng = self.rng
@@ -460,6 +520,8 @@ class Program:
             return
         if kb == "Posterior":
             n = rem[0]
+            if rng.random() < 0.2:
+                self.call_cond([(n, 0)], [(n, 1)], "mixed", "double")
             c = rng.choice(["unnamed-keyword", "named-keyword", "positional", "positional"])
             if c == "named-keyword":
                 self.call_simple("N;" + n, lambda o: (setattr(o, "name", n), o)[1], "valid")
@@ -474,9 +536,15 @@ class Program:
         if r < 0.14:      # ignored / refused keywords (no demand from the property: tie only)
             extra = rng.choice(sorted(self.fixed)) if (self.fixed and rng.random() < 0.6) else UNKNOWN
             self.call_cond([], [(extra, 1)], "keyword", "foreign-key"); return
-        if r < 0.18:
+        if r < 0.20:
+            if len(rem) >= 2 and rng.random() < 0.6 and kb not in ("Distribution", "Likelihood"):
+                m = rng.randint(1, len(rem) - 1)
+                dup = rng.choice(rem[:m])
+                ks = [(dup, 1)] + [(n, 0) for n in rng.sample(rem[m:], rng.randint(0, len(rem) - m - 1))]
+                rng.shuffle(ks)
+                self.call_cond([(n, 0) for n in rem[:m]], ks, "mixed", "double"); return
             self.call_cond([(rem[0], 0)], [(rem[0], 1)], "mixed", "double"); return
-        if r < 0.21:
+        if r < 0.23:
             self.call_cond([(n, 0) for n in rem] + [(None, 0)], [], "positional", "toomany"); return
         idx = lambda: 0 if rng.random() < 0.85 else 1
         mode = rng.choice(["keyword", "keyword", "keyword", "positional", "mixed"])
@@ -512,6 +580,9 @@ class Program:
             self.fails.append(("new:JointDistribution:raises", self.desc, "a joint distribution", self.impl[0],
                                "well-formed joint refused by the constructor"))
             return
+        if rng.random() < 0.15:
+            self.run_problem()
+            return
         stacked_done = False
         steps = rng.randint(2, 7)
         for _ in range(steps):
@@ -524,7 +595,7 @@ class Program:
                 if kb == "_StackedJointDistribution":
                     self.gen_eval(rng.choice(["short", "long", "short", "unknown"]))
                 else:
-                    self.gen_eval(rng.choice(["missing", "unknown", "double", "toomany"]))
+                    self.gen_eval(rng.choice(["missing", "unknown", "double", "toomany", "renamed", "renamed", "double-shift", "fixed-only"]))
             elif r < 0.58 and is_joint and not stacked_done:
                 stacked_done = self.call_simple("S", lambda o: o._as_stacked(), "valid")
                 self.gen_eval()
@@ -533,6 +604,130 @@ class Program:
                 if rng.random() < 0.7:
                     self.gen_eval()
         self.gen_eval()
+        # every final object (of whatever kind) also sees the malformed stream
+        for m in rng.sample(["missing", "unknown", "double", "toomany", "renamed", "double-shift", "fixed-only"], 2):
+            if kind_of(self.cuqi, self.obj_) == "_StackedJointDistribution":
+                m = rng.choice(["short", "long", "unknown"])
+            self.gen_eval(m)
+
+    # -- the BayesianProblem route (cuqi/problem/_problem.py)
+    def prob_fix(self, first, names):
+        """BayesianProblem(*densities, **data) (first=True) or problem.set_data(**data)"""
+        from cuqi.problem import BayesianProblem
+        kwargs = {k: self._arg(self.byname[k], 0) for k in names}
+        kb = "-" if first else kind_of(self.cuqi, self.problem._target)
+        token = ("C;.;" if first else "D;.;") + enc_kw([(k, kwargs[k]) for k in names])
+        valid = first or kb in ("JointDistribution", "MultipleLikelihoodPosterior")
+        try:
+            with quiet():
+                if first:
+                    self.problem = BayesianProblem(*self.dens, **kwargs)
+                else:
+                    self.problem.set_data(**kwargs)
+            rec = describe(self.cuqi, self.problem._target); ok = True
+        except Exception as e:  # noqa
+            rec = "err:" + type(e).__name__; ok = False
+        self._record(token, rec, {"op": "problem-init" if first else "set_data", "kind": kb, "mode": "keyword",
+                                  "what": "valid" if valid else "target-not-joint"})
+        if ok:
+            for n in names:
+                self.fixed.setdefault(n, 0)
+            self.obj_ = self.problem._target
+        elif valid:
+            self.fails.append((f"problem:{'init' if first else 'set_data'}:{kb}:raises", {**self.desc, "call": token, "record": len(self.impl) - 1},
+                               "conditioned target", rec, "fixing variables through the BayesianProblem API is refused"))
+        return ok
+
+    def prob_eval(self, op, pos, kw, what, want=None):
+        """problem.posterior / .likelihood / .prior followed by .logd"""
+        acc = {"P": "posterior", "AL": "likelihood", "AP": "prior"}[op]
+        kb = kind_of(self.cuqi, self.problem._target)
+        pargs = [self._arg(self.byname[n], i) for n, i in pos]
+        kwargs = {k: (self._arg(self.byname[k], i) if k in self.byname else 1.0) for k, i in kw}
+        fv = getattr(self, "_foreign_value", None)
+        if fv is not None and fv[0] in kwargs:
+            kwargs[fv[0]] = self._arg(fv[1], fv[2])
+        token = op + ";" + enc_pos(pargs) + ";" + enc_kw([(k, kwargs[k]) for k, _ in kw])
+        try:
+            with quiet():
+                val = getattr(self.problem, acc).logd(*pargs, **kwargs)
+            arr = np.asarray(val, dtype=float).reshape(-1)
+            rec = ("val", float(arr[0])) if arr.size == 1 else ("val", [float(t) for t in arr])
+        except Exception as e:  # noqa
+            rec = "err:" + type(e).__name__
+        self._record(token, rec, {"op": "problem." + acc, "kind": kb, "mode": "positional" if pos else "keyword", "what": what})
+        d = {**self.desc, "call": token, "record": len(self.impl) - 1, "fixed": dict(self.fixed)}
+        if what == "valid":
+            if not (isinstance(rec, tuple) and isinstance(rec[1], float) and close(rec[1], want, 1e-9)):
+                self.fails.append((f"problem:{acc}:logd:" + ("raises" if isinstance(rec, str) else "value"), d, want,
+                                   rec if isinstance(rec, str) else rec[1],
+                                   f"problem.{acc}.logd is not the corresponding part of the joint log-density at the complete assignment"))
+        elif what in ("renamed", "missing", "unknown", "double"):
+            if isinstance(rec, tuple):
+                self.fails.append((f"problem:{acc}:logd:malformed:{what}:accepted", d, "an error", rec[1],
+                                   f"evaluation with a {what} variable returns a number"))
+
+    def run_problem(self):
+        """data only / data + hyper-parameters, through the constructor and one or several set_data calls"""
+        rng = self.rng
+        self.desc["route"] = "BayesianProblem"
+        self.shape += "+problem"
+        names = self.remaining()
+        target = rng.choice(names)
+        others = [n for n in names if n != target]
+        rng.shuffle(others)
+        if len(others) > 1 and rng.random() < 0.12:
+            others.pop()                       # something besides the target stays free: no Posterior
+        ngroups = rng.randint(1, 3)
+        groups = [[] for _ in range(ngroups)]
+        for n in others:
+            groups[rng.randrange(ngroups)].append(n)
+        if not self.prob_fix(True, groups[0]):
+            return
+        for g in groups[1:]:
+            if g or rng.random() < 0.3:
+                self.prob_fix(False, g)
+        kb = kind_of(self.cuqi, self.problem._target)
+        rem = self.remaining()
+        if kb != "Posterior" or rem != [target]:
+            # accessors must agree with the model (they refuse unless the target is a Posterior)
+            self.prob_eval("P", [], [(n, 0) for n in rem], "no-posterior")
+            if rng.random() < 0.5:
+                self.prob_fix(False, [rem[0]] if rem else [])
+            self.gen_eval()
+            return
+        T = self.byname[target]
+        liks = [v for v in self.vs if v.name != target and target in v.params()]
+        for _ in range(rng.randint(2, 4)):
+            i = 1 if rng.random() < 0.3 else 0
+            full = dict(self.fixed); full[target] = i
+            pos, kw = ([(target, i)], []) if rng.random() < 0.5 else ([], [(target, i)])
+            self.prob_eval("P", pos, kw, "valid", self.total(full))
+            if rng.random() < 0.6 and len(liks) == 1:
+                L = liks[0]
+                self.prob_eval("AL", pos, kw, "valid", self.leafs[(L.name, full[L.name]) + tuple(full[p] for p in L.params())])
+                self.prob_eval("AP", pos, kw, "valid", self.leafs[(T.name, i) + tuple(full[p] for p in T.params())])
+        # malformed evaluations of the posterior handed out by the problem
+        foreign = rng.choice(sorted(self.fixed)) if (self.fixed and rng.random() < 0.6) else UNKNOWN
+        self._foreign_value = (foreign, T, 0)
+        self.prob_eval("P", [], [(foreign, 0)], "renamed")
+        self._foreign_value = None
+        self.prob_eval("P", [(target, 0)], [(target, 1)], "double")
+        self.prob_eval("P", [], [(target, 0), (UNKNOWN, 0)], "unknown")
+        # get_components(): the data handed out is the value the likelihood's variable was fixed to
+        if len(liks) == 1:
+            try:
+                with quiet():
+                    model, data, info = self.problem.get_components()
+                good = np.array_equal(np.asarray(data, dtype=float).reshape(-1), liks[0].vals[self.fixed[liks[0].name]])
+                got = str(np.asarray(data).tolist())[:80]
+            except Exception as e:  # noqa
+                good, got = False, "err:" + type(e).__name__
+            if not good:
+                self.fails.append(("problem:get_components:data", dict(self.desc), str(liks[0].vals[self.fixed[liks[0].name]].tolist()), got,
+                                   "get_components() does not hand out the observed data"))
+        self.prob_fix(False, [target])         # data already set: refused (tie)
+        self.gen_eval()                        # the target itself, as any other reduced object
 
     def line(self):
         return "prog " + " ".join(self.dens_tokens) + " -- " + " ".join(self.tokens)
